@@ -8,6 +8,7 @@ import DW.Driver.C17
 import DW.Driver.Names
 import DW.Driver.C16
 import DW.Driver.C18
+import DW.Driver.C19
 
 open Lean DW.Driver
 
@@ -24,6 +25,7 @@ def dispatch (j : Json) : Except String Json := do
   | "names" => handleNames j
   | "c16" => handleC16 j
   | "c18" => handleC18 j
+  | "c19" => handleC19 j
   | x => throw s!"unknown op {x}"
 
 def handleLine (line : String) : String :=
